@@ -2,6 +2,8 @@ import ColoVerif.Model.NetAsm
 import ColoVerif.Model.LegacyNetAsm
 import ColoVerif.Proofs.NetAsmScale
 import ColoVerif.Proofs.NetAsmLsq
+import ColoVerif.Model.NetTopology
+import ColoVerif.Proofs.NetTopology
 /-
 C17 — the continuous solver of global placement honours real-valued net weights.
 
@@ -11,12 +13,16 @@ they go through `Gen.NetWeightType.store`, the storage conversion regenerated fr
 element type of `NetModel::netWeight_` on every run: with `std::vector<int>` the proofs below
 stop type-checking (`store_exact` is no longer `rfl`).
 
+The second half is about `NetTopology.topology`, the model of `NetModel::xTopology/yTopology`
+(which circuit nets are stored, with which pins and which weight) that the driver executes on the
+circuits of the topology stream and the harness compares with the real `NetModel`'s accessors.
+
 Proved over `Rat` (exact arithmetic).  Not proved: float rounding, convergence of Eigen's
 conjugate gradient, and the `finalize` regularisation entries (`1e-8` on rows no pin touches;
 they are not scaled, their rows are otherwise empty).
 -/
 namespace ColoVerif.C17
-open ColoVerif.NetAsm
+open ColoVerif.NetAsm ColoVerif.NetTopology
 
 /-- **Homogeneity of the assembly.**  Scaling all net weights (as passed to `NetModel::addNet`)
 and all penalty strengths by `k` scales every matrix entry and every right-hand-side entry by `k`
@@ -105,6 +111,76 @@ theorem legacy_assembly_not_homogeneous :
       ≠ ((Legacy.assembleLegacy .star0 1 Legacy.halfNet [] 1 none).scale 2).triplets :=
   Legacy.legacy_not_homogeneous
 
+/-! ### from the circuit to the solver: `NetModel::xTopology` / `yTopology` -/
+
+/-- **Every net kept by `xTopology`/`yTopology` carries the weight of the circuit net it came
+from.**  `keptIdx c` is the explicit index map from `NetModel` nets to circuit nets: it has one
+entry per stored net, is strictly increasing (order-preserving), enumerates exactly the
+non-degenerate circuit nets (`IsKept`: a movable pin plus a second movable pin or a fixed pin — so
+only empty nets, pads-only nets and dangling single pins are skipped), and the `k`-th stored net
+has the weight `Circuit::netWeight` and the pins of circuit net `(keptIdx c)[k]` — for every
+circuit, on both axes. -/
+theorem topology_weights_faithful (a : Axis) (c : Circuit) :
+    (topology a c).length = (keptIdx c).length
+      ∧ List.Pairwise (fun i j => i < j) (keptIdx c)
+      ∧ (∀ i : Nat, i ∈ keptIdx c ↔ ∃ n, c.nets[i]? = some n ∧ IsKept c n = true)
+      ∧ ∀ k i : Nat, (keptIdx c)[k]? = some i →
+          ∃ n, c.nets[i]? = some n ∧ (topology a c)[k]? = some (⟨netWeight n, storedPins a c n⟩ : NetAsm.Net) := by
+  rw [topology_eq_circuitNets]
+  refine ⟨?_, keptIdxFrom_pairwise c c.nets 0, ?_, ?_⟩
+  · unfold circuitNets keptIdx
+    rw [List.length_map, keptIdxFrom_length]
+  · intro i
+    unfold keptIdx
+    rw [keptIdxFrom_mem]
+    simp
+  · intro k i h
+    obtain ⟨_, n, hn, hf⟩ := keptIdxFrom_get c (fun n => (⟨netWeight n, storedPins a c n⟩ : NetAsm.Net)) c.nets 0 k i h
+    exact ⟨n, by simpa using hn, hf⟩
+
+/-- **The pins of a stored net**: the pins of the circuit net on movable cells, in order, with the
+offset to the cell centre (`offset - ½ placedWidth`), followed by the fixed pins folded into their
+minimum and maximum position (`RangeOf`: both are positions of fixed pins of the net and bound all
+of them), clamped to the placement area, one pin if the two coincide (`withFixed`). -/
+theorem topology_pins_faithful (a : Axis) (c : Circuit) (n : ColoVerif.Net) :
+    storedPins a c n
+        = withFixed ((n.pins.filter (fun p => !(c.cell p.cell).fixed)).map (movablePin a c))
+            (clampRange a c (walkPins a c n).range)
+      ∧ RangeOf (fixedPositions a c n) (walkPins a c n).range := by
+  refine ⟨?_, walkPins_rangeOf a c n⟩
+  unfold storedPins
+  rw [rawOf_pins]
+  rfl
+
+/-- **Least squares at the circuit level.**  The system that `solveStar(params)` assembles from
+the `NetModel` returned by `xTopology(circuit)` / `yTopology(circuit)` is the normal-equation
+system of `circuitQ`, the documented quadratic built from the circuit's *own* weights
+(`Σ_{non-degenerate nets n} netWeight(n) · …`): `A x - b = ½∇Q(x)`. -/
+theorem circuit_star_is_least_squares (a : Axis) (c : Circuit) (pl : List Rat) (ε : Rat)
+    (h : CircuitOk c) :
+    IsHalfGradient (assembleNets .star0 c.cells.length (topology a c) pl ε none) (circuitQ a c) := by
+  have wf : WellFormed c.cells.length (rawNets a c) := by
+    unfold WellFormed
+    rw [buildWith_id_rawNets]
+    exact circuitNets_wellFormed a c h
+  have := bipoint_star_is_least_squares c.cells.length (rawNets a c) pl ε wf
+  rw [buildWith_id_rawNets] at this
+  exact this
+
+/-- … and every exact solution of that system minimises the circuit's weighted quadratic: the
+initial placement of a circuit is the weighted least-squares optimum for the circuit's weights. -/
+theorem circuit_star_solution_minimizes (a : Axis) (c : Circuit) (pl : List Rat) (ε : Rat)
+    (h : CircuitOk c) (x : Nat → Rat)
+    (hx : Solves (assembleNets .star0 c.cells.length (topology a c) pl ε none) x) (y : Nat → Rat) :
+    circuitQ a c x ≤ circuitQ a c y := by
+  have wf : WellFormed c.cells.length (rawNets a c) := by
+    unfold WellFormed
+    rw [buildWith_id_rawNets]
+    exact circuitNets_wellFormed a c h
+  have := star_solution_minimizes c.cells.length (rawNets a c) pl ε wf x hx y
+  rw [buildWith_id_rawNets] at this
+  exact this
+
 /-! ### non-vacuity -/
 
 /-- A three-pin net of weight ¾ plus a two-pin net of weight ½ on two cells. -/
@@ -155,6 +231,36 @@ an auxiliary star unknown, and weight ¾ really is in the matrix (entry ¾ / 3 =
 example : (assemble .star0 2 sampleRaws [] 1 none).triplets
     = [(0, 2, -(1/4)), (2, 0, -(1/4)), (0, 0, 1/4), (2, 2, 1/4),
        (1, 2, -(1/4)), (2, 1, -(1/4)), (1, 1, 1/4), (2, 2, 1/4), (2, 2, 1/4), (1, 1, 1/2)] := by
+  decide +kernel
+
+/-- Two movable cells and a pad; nets: a two-pin net of weight 3/4, a *dangling* pin, a pads-only
+net, then a net of weight 5/2 from cell 1 to the pad and a net of weight 1/8 between the cells. -/
+def sampleCircuit : Circuit :=
+  { cells := [⟨4, 2, 0, 0, .N, false, false, .ANY⟩, ⟨2, 2, 0, 0, .FN, false, false, .ANY⟩,
+              ⟨0, 0, 7, 1, .N, true, false, .ANY⟩],
+    rows := [⟨⟨0, 10, 0, 2⟩, .N⟩],
+    nets := [⟨3, -2, [⟨0, 1, 0⟩, ⟨1, 0, 1⟩]⟩, ⟨7, 0, [⟨0, 0, 0⟩]⟩, ⟨9, 0, [⟨2, 0, 0⟩, ⟨2, 1, 1⟩]⟩,
+             ⟨5, -1, [⟨1, 1, 1⟩, ⟨2, 0, 0⟩]⟩, ⟨1, -3, [⟨1, 2, 0⟩, ⟨0, 4, 2⟩]⟩] }
+
+/-- `CircuitOk` is satisfiable by a circuit with degenerate nets interleaved. -/
+example : CircuitOk sampleCircuit := by
+  intro n hn
+  simp only [sampleCircuit, List.mem_cons, List.not_mem_nil, or_false] at hn
+  rcases hn with rfl | rfl | rfl | rfl | rfl <;> refine ⟨by decide, ?_⟩ <;> intro p hp <;>
+    simp only [List.mem_cons, List.not_mem_nil, or_false] at hp
+  · rcases hp with rfl | rfl <;> decide
+  · rcases hp with rfl; decide
+  · rcases hp with rfl | rfl <;> decide
+  · rcases hp with rfl | rfl <;> decide
+  · rcases hp with rfl | rfl <;> decide
+
+/-- On it the index map skips nets 1 and 2, and the stored nets carry the weights 3/4, 5/2, 1/8 of
+circuit nets 0, 3, 4 (not those of nets 0, 1, 2), with centre offsets and the pad as a fixed pin. -/
+example : keptIdx sampleCircuit = [0, 3, 4]
+    ∧ topology .x sampleCircuit =
+      [⟨3 / 4, [((0 : Int), (-1 : Rat)), ((1 : Int), (1 : Rat))]⟩,
+       ⟨5 / 2, [((1 : Int), (0 : Rat)), ((-1 : Int), (7 : Rat))]⟩,
+       ⟨1 / 8, [((1 : Int), (-1 : Rat)), ((0 : Int), (2 : Rat))]⟩] := by
   decide +kernel
 
 end ColoVerif.C17
